@@ -15,7 +15,7 @@ from .. import rig as R, ref, gen, subm, dump, qcore, env
 from ..orch import h
 
 ID = "C06"
-TECHNIQUE = 'runtime monitoring - per-submission oracle at quiescence: one OK per EVENT, OK=true implies retrievable (dump + REQ), OK=false implies no trace (records, index keys, tags rows, pushes); resubmissions, orderly restart right behind the acknowledgement'
+TECHNIQUE = 'runtime monitoring - per-submission oracle at quiescence: one OK per EVENT, OK=true implies retrievable (dump + REQ), OK=false implies no trace (records, index keys, tags rows, pushes); resubmissions, orderly restart right behind the acknowledgement; end-to-end shards on a real server process tree: one OK per EVENT on the wire; events acknowledged before SIGTERM (orderly gunicorn shutdown, also in the middle of a burst) are retrievable after the restart'
 LEVEL = "exploration"
 RULE = (
     "cases = (backend, seeded sequence of 25-50 EVENT submissions mixing valid events of every kind class, exact "
